@@ -2,7 +2,7 @@
     [Layout.accounted] is the decision procedure the harness evaluates on the independent decoder's view of every
     file image; this file proves that a "yes" of that procedure is the declarative partition. *)
 From Bbolt Require Import Base Consts Spec Fnv Layout LayoutProofs LayoutOrderProofs Pager PagerProofs.
-From Bbolt Require Node Tree TreeProofs TreeNestedProofs.
+From Bbolt Require Node Tree TreeProofs TreeNestedProofs TreePagerProofs.
 From Coq Require Import Permutation.
 
 Theorem C07_accounting_decision_sound : forall v free,
@@ -88,4 +88,22 @@ Theorem C07_nested_commit_frees_exactly_what_it_drops : forall ps fill fuel t or
   Permutation (runs t) (freed evs ++ runs t').
 Proof. exact commit_parent_bucket_runs. Qed.
 Print Assumptions C07_nested_commit_frees_exactly_what_it_drops.
+
+(** ---- the two layers compose: every Free the tree layer issues during a commit passes the guard of the page-level transaction system
+    (Pager.pstep's LFree: "a page of the base version, not freed before" - the guard DESIGN calls tree_ok, until now only monitored on the
+    real freelist events), for every visit order; and every page the new tree keeps from the old one is a page of the version LCommit publishes ---- *)
+Import TreePagerProofs.
+Theorem C07_tree_frees_pass_the_pager_guard : forall ps fill fuel t order t' evs inl s w,
+  (0 < fuel)%nat -> aligned t -> NoDup (run_ids t) -> (forall p, In p (run_ids t) -> In p (g_pages s)) ->
+  g_w s = Some w -> (forall p, In p (run_ids t) -> ~ In p (w_freed w)) ->
+  commit_bucket ps fill fuel t order = Ok (t', evs, inl) -> frees_accepted t t' evs s w.
+Proof. exact commit_bucket_frees_accepted. Qed.
+Print Assumptions C07_tree_frees_pass_the_pager_guard.
+
+Theorem C07_nested_tree_frees_pass_the_pager_guard : forall ps fill fuel t order children t' evs inl s w,
+  (0 < fuel)%nat -> aligned t -> NoDup (run_ids t) -> (forall p, In p (run_ids t) -> In p (g_pages s)) ->
+  g_w s = Some w -> (forall p, In p (run_ids t) -> ~ In p (w_freed w)) ->
+  commit_parent_bucket ps fill fuel t order children = Ok (t', evs, inl) -> frees_accepted t t' evs s w.
+Proof. exact commit_parent_bucket_frees_accepted. Qed.
+Print Assumptions C07_nested_tree_frees_pass_the_pager_guard.
 End TreeLayer.
